@@ -17,6 +17,7 @@ fn main() {
     };
     let mut seed: u64 = std::env::var("VERIF_SEED").ok().and_then(|s| s.trim().parse().ok()).unwrap_or(1);
     let mut replay: Option<String> = None;
+    let mut inner = false;
     let mut i = 2;
     while i < args.len() {
         match args[i].as_str() {
@@ -36,6 +37,11 @@ fn main() {
                 i += 1;
                 replay = Some(args.get(i).cloned().unwrap_or_else(|| usage()));
             }
+            "--replay-inner" => {
+                i += 1;
+                inner = true;
+                replay = Some(args.get(i).cloned().unwrap_or_else(|| usage()));
+            }
             "--worker" => {
                 // subprocess worker protocol: tvh <ID> --worker <family> <args...>
                 let rest: Vec<String> = args[i + 1..].to_vec();
@@ -46,7 +52,58 @@ fn main() {
         i += 1;
     }
     install_panic_hook();
+    if let (Some(path), false) = (&replay, inner) {
+        // crash isolation: the case is replayed in a child process (reference stack of 8 MiB);
+        // a child killed by a signal (stack overflow, abort) is a violation, a child that does not return is inconclusive
+        use std::os::unix::process::ExitStatusExt;
+        let exe = std::env::current_exe().expect("current_exe");
+        let mut child = std::process::Command::new(exe).arg(&prop).arg("--replay-inner").arg(path).spawn().expect("spawn replay child");
+        let t0 = std::time::Instant::now();
+        let status = loop {
+            match child.try_wait() {
+                Ok(Some(st)) => break Some(st),
+                Ok(None) if t0.elapsed().as_secs() > 600 => {
+                    let _ = child.kill();
+                    let _ = child.wait();
+                    break None;
+                }
+                Ok(None) => std::thread::sleep(std::time::Duration::from_millis(20)),
+                Err(_) => break None,
+            }
+        };
+        match status {
+            None => {
+                eprintln!("replay did not finish within 600 s: inconclusive");
+                std::process::exit(2)
+            }
+            Some(st) => match (st.code(), st.signal()) {
+                (Some(c), _) => std::process::exit(c),
+                (None, sig) => {
+                    println!("VIOLATION property={} replay={}", prop, path);
+                    eprintln!("  signature={prop}/process-died :: the replay process was killed by signal {:?} (stack overflow or abort)", sig);
+                    std::process::exit(1)
+                }
+            },
+        }
+    }
     if let Some(path) = replay {
+        let (tx, rx) = std::sync::mpsc::channel();
+        let prop2 = prop.clone();
+        std::thread::Builder::new().stack_size(8 << 20).spawn(move || tx.send(replay_inner(&prop2, &path, tier, seed)).ok()).expect("spawn");
+        std::process::exit(rx.recv().unwrap_or(2));
+    }
+    let rep = Report::new(&prop, tier, seed);
+    if !tvh::props::run(&prop, &rep) {
+        eprintln!("unknown property {prop}");
+        std::process::exit(2);
+    }
+    std::process::exit(rep.finish());
+}
+
+fn replay_inner(prop: &str, path: &str, tier: Tier, seed: u64) -> i32 {
+    {
+        let prop = prop.to_string();
+        let path = path.to_string();
         let txt = std::fs::read_to_string(&path).unwrap_or_else(|e| {
             eprintln!("cannot read {path}: {e}");
             std::process::exit(2)
@@ -61,23 +118,17 @@ fn main() {
         match tvh::props::replay(&prop, &rep, &case) {
             Some(Ok(())) => {
                 eprintln!("replay passes: the case no longer violates {prop}");
-                std::process::exit(0)
+                0
             }
             Some(Err(f)) => {
                 println!("VIOLATION property={} replay={}", prop, path);
                 eprintln!("  signature={} :: {}", f.signature, f.what);
-                std::process::exit(1)
+                1
             }
             None => {
                 eprintln!("replay kind not supported for {prop}");
-                std::process::exit(2)
+                2
             }
         }
     }
-    let rep = Report::new(&prop, tier, seed);
-    if !tvh::props::run(&prop, &rep) {
-        eprintln!("unknown property {prop}");
-        std::process::exit(2);
-    }
-    std::process::exit(rep.finish());
 }
